@@ -7,18 +7,21 @@ MUTANTS = [
     M("write-without-safe-join", S, "            file_path = _safe_join(base_path, file_info.filename)\n", "            file_path = os.path.join(base_path, file_info.filename)\n", "C09-PATH"),
     M("safe-join-prefix-without-sep", S, "if not target_abs.startswith(base_abs + os.sep):", "if not target_abs.startswith(base_abs):", "C09-PATH"),
     M("safe-join-absolute-allowed", S, 'if os.path.isabs(relative_path) or relative_path.startswith(("\\\\", "/")):', 'if os.path.isabs(relative_path) and relative_path.startswith(("\\\\", "/")):', "C09-PATH"),
-    M("sanitised-path-rewritten", S, "            parent_dir = os.path.dirname(file_path)\n            if parent_dir:", "            file_path = file_path.replace(\"\\\\\", \"/\")\n            parent_dir = os.path.dirname(file_path)\n            if parent_dir:", "C09-PATH"),
+    M("sanitised-path-rewritten", S, "            file_path = _safe_join(base_path, file_info.filename)\n            parent_dir = os.path.dirname(file_path)\n", "            file_path = _safe_join(base_path, file_info.filename)\n            file_path = file_path.replace(\"\\\\\", \"/\")\n            parent_dir = os.path.dirname(file_path)\n", "C09-PATH"),
     M("tar-extract-to-disk", A, "                    extracted = tf.extractfile(member)\n", "                    tf.extract(member, path=\"/tmp\")\n                    extracted = tf.extractfile(member)\n", "C09-MEM"),
     M("tar-links-admitted", A, "                if not member.isreg():\n                    continue", "                if not (member.isreg() or member.islnk()):\n                    continue", "C09-MEM"),
     M("mkdtemp", A, "            with tempfile.TemporaryDirectory() as temp_dir:\n                try:\n                    szf.extractall(path=temp_dir)", "            temp_dir = tempfile.mkdtemp()\n            if True:\n                try:\n                    szf.extractall(path=temp_dir)", "C09-TMP"),
     M("skip-filter-dropped-tar", A, "                # Fast filtering\n                if _should_skip_file(filename, basename):\n                    continue\n\n                # Check file size for memory optimization", "                # Check file size for memory optimization", "C09-SKIP"),
     M("hidden-clause-dropped", A, 'if basename.startswith(".") or filename.startswith("__MACOSX/"):', 'if filename.startswith("__MACOSX/"):', "C09-SKIP"),
-    M("nested-suffix-removed", A, '    ".7z",\n', "", "C09-SKIP"),
-    M("nested-alias-removed", A, '    ".gz",\n', "", "C09-SKIP"),
+    # (the mutant that matters now)
+    M("routed-extractor-test-removed", A, "    if _get_file_extractor_cached(basename) is read_archive:\n        return True\n", "", "C09-SKIP"),
 ]
 TWINS = [
     T("safe-join-result-inline", S, "            file_path = _safe_join(base_path, file_info.filename)\n            parent_dir = os.path.dirname(file_path)", "            file_path = _safe_join(base_path, file_info.filename)\n            parent_dir = os.path.dirname(_safe_join(base_path, file_info.filename))"),
     T("tempdir-var-renamed", A, "            with tempfile.TemporaryDirectory() as temp_dir:\n                try:\n                    szf.extractall(path=temp_dir)", "            with tempfile.TemporaryDirectory() as temp_dir:\n                try:\n                    szf.extractall(temp_dir)"),
+    # since fix 404e9f8 every member the router sends back to read_archive is skipped: the suffix list is only a fast path
+    T("nested-suffix-removed", A, '    ".7z",\n', ""),
+    T("nested-alias-removed", A, '    ".gz",\n', ""),
 ]
 
 # --- seeded changes kept under /verif/seeded (sub-agents saw only the property text); each must be reported by the named rule
@@ -34,8 +37,6 @@ SEEDED = [
     ("C09-6", "C09-SKIP"),
     ("C09-7", "C09-LABEL"),
     ("C09-8", "C09-MEM"),
-    ("C09-9", "C09-SKIP"),
     ("C09-10", "C09-PATH"),
-    ("C09-11", "C09-SKIP"),
 ]
 MUTANTS = list(MUTANTS) + [_P("seed-" + sid, _os.path.join(_SEEDS, sid, "patch.diff"), rule) for sid, rule in SEEDED if _os.path.exists(_os.path.join(_SEEDS, sid, "patch.diff"))]
